@@ -46,6 +46,9 @@ EXTRA = {
 # user types that contain themselves: the known finding D21 (typed decoders do not count nesting)
 SELF_REF = ("DRec", "MSRec")
 PARAM_OPS = ("UP", "BP param", "BP all")
+# catalogue types the harness binary can dispatch (harness/src/bin/c04_dispatch.inc is generated from gen/catalogue.txt by
+# gen/c04_dispatch.py; when the catalogue grows before the dispatch is regenerated the new types are left out, and counted)
+KNOWN_TYPES = set()
 
 
 # ----------------------------------------------------------------------------- results
@@ -244,7 +247,9 @@ class Gen:
         self.drv = drv
         self.thorough = thorough
         self.r = ctx.sub_rng(name)
-        self.cat = wg.catalogue()
+        full = wg.catalogue()
+        self.cat = [t for t in full if t in KNOWN_TYPES] if KNOWN_TYPES else full
+        ctx.extra["catalogue_types_not_in_dispatch"] = len(full) - len(self.cat)
         self.names = list(self.cat) + list(EXTRA)
         self.n = 0
 
@@ -263,7 +268,7 @@ def gen_valid(g):
     cases = []
     # ---- A: valid encodings of catalogue and extra types and their single-fault corruptions
     jobs, meta = [], []
-    per_type = 3 if thorough else 1
+    per_type = 12 if thorough else 3
     for ty in cat:
         t = wg.parse_ext(ty)
         for i in range(per_type):
@@ -286,7 +291,7 @@ def gen_valid(g):
         nf = 3 if wg.count_leaves(t, "h") else 0
         pre = bytes((7 * i + 3) % 251 for i in range(off))
         inputs = [("valid", pre + enc, "ok")]
-        for kind, cb in wg.corruptions(r, enc, limit=8 if thorough else 4):
+        for kind, cb in wg.corruptions(r, enc, limit=16 if thorough else 8):
             inputs.append(("corrupt:" + kind.split("@")[0], pre + cb, None))
         for kind, data, expect in inputs:
             cases += direct_cases(kind, ty, t, bo, off, nf, data, phase(), expect=expect, typed_name=name, expect_typed=expect if ty else None)
@@ -311,7 +316,7 @@ def gen_mismatch(g):
             cases += body_cases("mismatch", ty, sig, bo, 1, data, phase(), [mode])
     # a valid encoding of S read as T, for pairs of catalogue types
     pair_jobs, pair_meta = [], []
-    for _ in range(600 if thorough else 120):
+    for _ in range(5000 if thorough else 600):
         a, b = r.choice(cat), r.choice(names)
         ta = wg.parse_ext(a)
         bo = r.choice(["le", "be"])
@@ -398,7 +403,7 @@ def gen_length(g):
         t = wg.parse_ext(ty)
         sig = wg.erased(t)
         for L in (MAXA - 1, MAXA, MAXA + 1, 1 << 31, (1 << 32) - 1):
-            for k in ([0, 1, 4, 8, 32] if thorough else r.sample([0, 1, 4, 8, 32], 2)):
+            for k in [0, 1, 4, 8, 32]:
                 bo = r.choice(["le", "be"])
                 head = {"(yay)": b"\x07\x00\x00\x00", "v[ay]": b"\x02ay\x00", "av[y]": b""}.get(ty, b"")
                 data = head + u32(bo, L) + bytes(r.choice([0, 0, 7, 255]) for _ in range(k))
@@ -428,7 +433,7 @@ def gen_random(g):
     ctx, drv, thorough, r, cat, names, phase = g.ctx, g.drv, g.thorough, g.r, g.cat, g.names, g.phase
     cases = []
     # ---- E: random bytes under every type
-    for _ in range(6000 if thorough else 700):
+    for _ in range(60000 if thorough else 6000):
         ty = r.choice(names)
         t = wg.parse_ext(ty) if ty in cat else wg.parse_ext(EXTRA[ty][1][0])
         off = r.choice([0, 0, 0, 1, 3, 4, 7])
@@ -450,7 +455,7 @@ def gen_header(g):
     for bo in ("le", "be"):
         base = header_bytes(bo, "ay", u32(bo, 3) + b"abc", fields=[(1, "o", b"/p"), (3, "s", b"M"), (6, "s", b"a.b"), (5, "u", (9).to_bytes(4, "little"))] if bo == "be" else None)
         cases.append(Case("header:valid", "HD %d %s" % (phase(), hx(base)), len(base)))
-        for kind, cb in wg.corruptions(r, base, limit=40 if thorough else 16):
+        for kind, cb in wg.corruptions(r, base, limit=120 if thorough else 40):
             cases.append(Case("header:" + kind.split("@")[0], "HD %d %s" % (phase(), hx(cb)), len(cb)))
         for L in (MAXA - 1, MAXA, MAXA + 1, MAXM - 1, MAXM, MAXM + 1, (1 << 32) - 1):
             for k in (0, 7, 32):
@@ -463,7 +468,7 @@ def gen_header(g):
             m = header_bytes(bo, "", b"", fields=[(1, "o", b"/p"), (3, "s", b"M"), (77, "v", val)])
             cases.append(Case("header:bomb", "HD %d %s" % (phase(), hx(m)), len(m), expect="err" if n > 61 else None,
                               note="unknown header field holding %d nested variants (already 3 levels deep)" % n))
-    for _ in range(3000 if thorough else 300):
+    for _ in range(30000 if thorough else 3000):
         n = r.choice([0, 1, 8, 12, 15, 16, 17, 24, 40, 64, 120])
         data = bytearray(r.choice([0, 0, 1, 4, 8, r.randrange(256)]) for _ in range(n))
         if n >= 4 and r.random() < 0.8:
@@ -510,7 +515,6 @@ def evaluate(ctx, cases, builds, drv, param_size, prop="C04"):
                          sample={"case": c.line[:150], "result": res.raw[:100]} if ctx.evaluations % 997 == 0 else None)
                 ctx.count("kind:" + c.kind.split(":")[0])
                 ctx.count("op:" + c.op)
-                ph = c.line.split(" ")
                 ctx.count("status:" + res.status)
             else:
                 ctx.evaluations += 1
@@ -568,6 +572,9 @@ def build_all():
     dbg = vlib.harness_build(["c04"], profile="debug")["c04"]
     rc, out = vlib.sh([rel, "info"], timeout=60)
     info = dict(kv.split("=", 1) for kv in out.strip().split(" ") if "=" in kv)
+    rc, out = vlib.sh([rel, "types"], timeout=60)
+    KNOWN_TYPES.clear()
+    KNOWN_TYPES.update(out.strip().split(" "))
     return [("release", rel), ("debug", dbg)], int(info["param_size"]), info
 
 
@@ -631,11 +638,12 @@ def replay(ctx, body):
         print("the case line was too long to store; regenerate with VERIF_SEED=%s ./check %s %s" % (body.get("seed"), body["property"], body.get("tier")))
         return 2
     res = run_impl(exe, [d["line"]])[0]
-    print(d["line"][:300])
-    print("   now :", res.raw[:300])
-    print("   then:", d["result"][:300])
-    c = Case(d.get("kind", "?"), d["line"], len(d["line"].split(" ")[-1]) // 2)
-    bad = res.status not in ("ok", "err") or res.status != Res(d["result"]).status and False
-    same = res.status == Res(d["result"]).status
-    print("REPRODUCED" if same and (bad or res.status in CRASH or True) else "outputs differ from the recorded failing run")
+    then = Res(d["result"])
+    print("what  :", body.get("what", "")[:300])
+    print("case  :", d["line"][:300])
+    print("build :", d.get("build"))
+    print("now   :", res.raw[:300])
+    print("then  :", then.raw[:300])
+    same = res.status == then.status
+    print("REPRODUCED (same outcome as recorded)" if same else "outcome differs from the recorded failing run")
     return 1 if same else 0
